@@ -509,6 +509,8 @@ def run(tier):
         if g["res"] != want[script[-1]]:
             v.witness("C19_KeepAliveCause", script[-1], "KeepAlive with ping outcomes %s returned an error of class %s, the cause is %s" % (script, g["res"], want[script[-1]]),
                       {"script": script, "got": g})
+    import dialer_family
+    evaluations += dialer_family.c19(binary, v)
     rc = v.finish()
     distinct_violations = len({(k, w) for k, w, _, _ in v.violations})
     depth, fullbase, maxfails = TIERS[tier]
